@@ -9,6 +9,10 @@ import ClarabelModel.Unscale
 import Mathlib.Tactic.NormNum
 import ClarabelProofs.Lemmas.SolverModelRefine
 import ClarabelProofs.Lemmas.SolverModelExample
+import ClarabelProofs.Lemmas.InfoReport
+import ClarabelProofs.Lemmas.InfoReportExample
+import ClarabelProofs.Lemmas.SolverReport
+import ClarabelModel.InfoReset
 
 namespace Clarabel.C03
 open Clarabel.Dense Clarabel.Info Finset
@@ -364,5 +368,410 @@ example : (run 3).toOption.map (fun r => (r.passes, r.S.solution.status, r.S.sol
 example : ((0 : Int) == 0) = true := by decide
 
 end fullExamples
+
+end Clarabel.C03
+
+
+/-! ## Round 3 (second part) — the report on the USER's data, the `Almost*` clause on both paths,
+nothing stale
+
+Helper lemmas: `Lemmas/InfoFigures.lean` (who may write the six figures), `Lemmas/InfoReport.lean`
+(the chain over `ℝ`), `Lemmas/InfoReportExample.lean` (non-vacuity), `Lemmas/SolverReport.lean`
+(whole-solver model). -/
+namespace Clarabel.C03
+open Clarabel Clarabel.Dense Clarabel.InfoUser Clarabel.InfoReport Clarabel.Residuals Clarabel.Info Finset
+
+section structural2
+variable {β : Type} [Mul β] [Div β] [OfNat β 0] [OfNat β 1]
+
+/-- **[S] `C03.report_nan_iff_infeasible`** (any scalar type).  After `Solution.post_process`, with
+or without presolve reversal: `obj_val` is NaN (`none`) iff `obj_val_dual` is NaN iff the status is
+one of the four infeasibility statuses; otherwise they are `info.cost_primal`, `info.cost_dual`;
+`r_prim`, `r_dual`, `status`, `iterations` are copies of the `info` fields on every path
+(`report_status_iterations_copied`). -/
+theorem report_nan_iff_infeasible (sol : Unscale.Solution β) (eq : Equil β)
+    (pm : Option (Unscale.PresolveMap β)) (v : Vars β) (i : InfoS β)
+    (r : Unscale.Solution β × Vars β) (h : Unscale.postProcess sol eq pm v i = .ok r) :
+    (r.1.obj_val = none ↔ i.status.isInfeasible = true)
+    ∧ (r.1.obj_val_dual = none ↔ i.status.isInfeasible = true)
+    ∧ (i.status.isInfeasible = false →
+        r.1.obj_val = some i.cost_primal ∧ r.1.obj_val_dual = some i.cost_dual)
+    ∧ r.1.r_prim = some i.res_primal ∧ r.1.r_dual = some i.res_dual
+    ∧ r.1.status = i.status ∧ r.1.iterations = i.iterations := by
+  obtain ⟨a, b, c, d, e, f⟩ := postProcess_scalars sol eq pm v i r h
+  refine ⟨?_, ?_, ?_, c, d, e, f⟩
+  · rw [a]; cases i.status.isInfeasible <;> simp
+  · rw [b]; cases i.status.isInfeasible <;> simp
+  · intro hi; rw [a, b, hi]; exact ⟨rfl, rfl⟩
+
+/-- **[S] `C03.report_overwrites_solution`** (part of `report_not_stale`).  `Solution.post_process`
+overwrites every scalar of the solution object: whatever an earlier solve left in `status`,
+`obj_val`, `obj_val_dual`, `iterations`, `r_prim`, `r_dual` has no influence on the result. -/
+theorem report_overwrites_solution (sol : Unscale.Solution β) (eq : Equil β)
+    (pm : Option (Unscale.PresolveMap β)) (v : Vars β) (i : InfoS β)
+    (st : SolverStatus) (o1 o2 r1 r2 : Option β) (k : Nat) :
+    Unscale.postProcess { sol with status := st, obj_val := o1, obj_val_dual := o2, iterations := k,
+                                   r_prim := r1, r_dual := r2 } eq pm v i
+      = Unscale.postProcess sol eq pm v i :=
+  postProcess_overwrites sol eq pm v i st o1 o2 r1 r2 k
+
+end structural2
+
+section figures
+variable {α : Type} [Mul α] [Div α] [Neg α] [OfNat α 1] [OfNat α 100] [OfNat α 1000]
+  [LT α] [DecidableLT α] [LE α] [DecidableLE α]
+
+/-- **[S] `C03.status_changes_keep_figures`** (any scalar type).  Between `Info.update` and
+`Solution.post_process` nothing writes the six figures of the report: `check_termination` and
+`Info::post_process` return the info they were given up to `status`; `save_prev_iterate` followed
+by `reset_to_prev_iterate` returns the figures that were saved. -/
+theorem status_changes_keep_figures [FloatLike α] (i : InfoS α) (bz qx : α) (s : Settings α) (iter : Nat)
+    (tov : Bool) :
+    (∃ st, (checkTermination i bz qx s iter tov).1 = { i with status := st })
+    ∧ (∃ st, Info.postProcess i bz qx s = { i with status := st })
+    ∧ SameFigures (resetToPrev (savePrev i)) i :=
+  ⟨checkTermination_eq_status i bz qx s iter tov, postProcess_eq_status i bz qx s,
+   sameFigures_resetToPrev (prevIs_savePrev i)⟩
+
+end figures
+
+section reset
+variable {α : Type} [Add α] [Sub α] [Mul α] [Div α] [Neg α] [OfNat α 0] [OfNat α 1] [OfNat α 2]
+  [LT α] [DecidableLT α] [FloatLike α]
+
+/-- **[S] `C03.reset_then_update_not_stale`** (`report_not_stale`, component form; any scalar
+type).  `info.reset` at the start of a solve followed by the first `save_scalars` / `Info.update`
+leaves nothing of the previous solve in the fields `Solution.post_process` reads (nor in any
+other field but `prev_*`): started from two arbitrary old `info` blocks `i₁`, `i₂`, the results
+agree in `status` (= `Unsolved`), `iterations`, the nine figures.  A `reset` that forgot `status`
+(or `iterations`) falsifies this. -/
+theorem reset_then_update_not_stale (i₁ i₂ j₁ j₂ : InfoS α) (eq : Equil α) (normq normb : α)
+    (v : Vars α) (r : Resid α) (k : Nat)
+    (h₁ : Info.update (saveScalars (reset i₁) k) eq normq normb v r = .ok j₁)
+    (h₂ : Info.update (saveScalars (reset i₂) k) eq normq normb v r = .ok j₂) :
+    j₁.status = .unsolved ∧ j₁.iterations = k
+    ∧ j₁.status = j₂.status ∧ j₁.iterations = j₂.iterations
+    ∧ j₁.cost_primal = j₂.cost_primal ∧ j₁.cost_dual = j₂.cost_dual
+    ∧ j₁.res_primal = j₂.res_primal ∧ j₁.res_dual = j₂.res_dual
+    ∧ j₁.res_primal_inf = j₂.res_primal_inf ∧ j₁.res_dual_inf = j₂.res_dual_inf
+    ∧ j₁.gap_abs = j₂.gap_abs ∧ j₁.gap_rel = j₂.gap_rel ∧ j₁.ktratio = j₂.ktratio := by
+  have f₁ := Info.update_fields _ _ _ _ _ _ _ h₁
+  have f₂ := Info.update_fields _ _ _ _ _ _ _ h₂
+  simp only at f₁ f₂
+  obtain ⟨a1, a2, a3, a4, a5, a6, a7, a8, a9, a10, a11⟩ := f₁
+  obtain ⟨b1, b2, b3, b4, b5, b6, b7, b8, b9, b10, b11⟩ := f₂
+  have c1 : j₁.cost_primal = j₂.cost_primal := a1.trans b1.symm
+  have c2 : j₁.cost_dual = j₂.cost_dual := a2.trans b2.symm
+  have c7 : j₁.gap_abs = j₂.gap_abs := by rw [a7, b7, c1, c2]
+  refine ⟨a10, a11, a10.trans b10.symm, a11.trans b11.symm, c1, c2, a5.trans b5.symm,
+    a6.trans b6.symm, a3.trans b3.symm, a4.trans b4.symm, c7, ?_, a9.trans b9.symm⟩
+  rw [a8, b8, c7, c1, c2]
+
+end reset
+
+section userdata
+
+/-- **[R] `C03.report_on_user_data`** (`report_obj_val` + `report_residuals`, end to end).  `dt`: the
+data as `DefaultProblemData::new` leaves them (`UserData`); `dt'`: what the model's own
+`Equil.equilibrate` returns; `r`: what `Residuals.update` returns on the internal data for the
+iterate `v` (`τ > 0`); `info'`: what `Info.update` assigns; `ifin`: the info handed to
+`Solution.post_process` — any info with the six figures of `info'` (`status_changes_keep_figures`:
+everything in between changes `status` only) and a non-infeasible status, i.e. EVERY terminal
+status `Solved`, `AlmostSolved`, `MaxIterations`, `MaxTime`, `NumericalError`,
+`InsufficientProgress`.  Then for the `x, s, z` that `Solution.post_process` returns and the USER's
+`P, q, A, b` (dense meaning of `dt.P` — the symmetric matrix whose triangle it holds —, `dt.q`,
+`dt.A`, `dt.b`):
+`obj_val = ½xᵀPx + qᵀx`, `obj_val_dual = −bᵀz − ½xᵀPx`,
+`r_prim = ‖Ax+s−b‖₂ / max(1, normb+‖x‖₂+‖s‖₂)`, `r_dual = ‖Px+Aᵀz+q‖₂ / max(1, normq+‖x‖₂+‖z‖₂)`,
+`info.gap_abs = |obj_val − obj_val_dual|`,
+`info.gap_rel = gap_abs / max(1, min(|obj_val|, |obj_val_dual|))`, status and iterations are those
+of `ifin`, and `|x| = n`, `|s| = |z| = m`.  (`normb`, `normq`: the numbers handed to `Info.update`,
+the cached `‖b‖∞`, `‖q‖∞` — `C01.cached_norms_are_users`.) -/
+theorem report_on_user_data (dt dt' : ProblemData ℝ) (cones : List (ConeT ℝ))
+    (es : Equil.Settings ℝ) (hu : UserData dt cones es)
+    (heq : Equil.equilibrate dt cones es = .ok dt')
+    (v : Vars ℝ) (r0 r : Resid ℝ) (hsh : StateShapes dt.n dt.m v r0) (hτ : 0 < v.τ)
+    (hr : Residuals.update r0 v (toResidData dt') = .ok r)
+    (i i' : InfoS ℝ) (normq normb : ℝ)
+    (hi : Info.update i (toInfoEquil dt'.equilibration) normq normb v r = .ok i')
+    (ifin : InfoS ℝ) (hfig : SameFigures ifin i') (hst : ifin.status.isInfeasible = false)
+    (sol : Unscale.Solution ℝ) (out : Unscale.Solution ℝ × Vars ℝ)
+    (hpost : Unscale.postProcess sol (toInfoEquil dt'.equilibration) none v ifin = .ok out) :
+    let p := problemOf dt.P dt.q dt.A dt.b dt.n dt.m
+    let x := vecFn out.1.x dt.n
+    let sv := vecFn out.1.s dt.m
+    let z := vecFn out.1.z dt.m
+    let pobj := dot x (mulV p.P x) / 2 + dot p.q x
+    let dobj := -dot p.b z - dot x (mulV p.P x) / 2
+    out.1.obj_val = some pobj
+    ∧ out.1.obj_val_dual = some dobj
+    ∧ out.1.r_prim = some (nrm (fun k => mulV p.A x k + sv k - p.b k) / max 1 (normb + nrm x + nrm sv))
+    ∧ out.1.r_dual = some (nrm (fun j => mulV p.P x j + mulVT p.A z j + p.q j) / max 1 (normq + nrm x + nrm z))
+    ∧ ifin.gap_abs = |pobj - dobj|
+    ∧ ifin.gap_rel = |pobj - dobj| / max 1 (min |pobj| |dobj|)
+    ∧ out.1.status = ifin.status ∧ out.1.iterations = ifin.iterations
+    ∧ out.1.x.size = dt.n ∧ out.1.s.size = dt.m ∧ out.1.z.size = dt.m :=
+  report_chain dt dt' cones es hu heq v r0 r hsh hτ hr i i' normq normb hi ifin hfig hst sol out hpost
+
+/-- **[R] `C03.report_on_user_data_presolved`** — rows dropped by presolve.  If `ov, od, rp, rd` are
+the documented expressions of the un-scaled REDUCED point on the reduced data `(P, q, A', b')`
+(the conclusion of `report_on_user_data` for the problem the solver works on, `A' =
+A.select_rows(keep)`, `b' = b.select(keep)`), then for the full-length vectors the model's
+`reverse_presolve` returns they are the documented expressions on the user's FULL `(P, q, A, b)`:
+`obj_val`, `obj_val_dual` (dropped rows have `z = 0` and contribute nothing to `bᵀz`) and `r_dual`
+verbatim; `r_prim` with the residual norm and `‖s‖` taken over the kept rows (dropped rows:
+`s = infbound`).  Composes C09's `reduced_problem_dense` with `reverse_presolve`'s specification. -/
+theorem report_on_user_data_presolved {n m mr : ℕ} (keepL : List Bool)
+    (hm : keepL.length = m) (hmr : keepL.count true = mr)
+    (P : Fin n → Fin n → ℝ) (q : Fin n → ℝ)
+    (A A' : Csc ℝ) (b : Array ℝ) (hAc : C16.Canonical A) (hAm : A.m = m) (hAn : A.n = n)
+    (hb : b.size = m) (hsel : A.selectRows keepL.toArray = .ok A')
+    (infbound : ℝ) (sol r : Unscale.Solution ℝ) (vout : Vars ℝ)
+    (hrev : Unscale.reversePresolve { keep := keepL.toArray, infbound := infbound } sol vout = .ok r)
+    (normb normq ov od rp rd : ℝ)
+    (hov : ov = dot (vecFn vout.x n) (mulV P (vecFn vout.x n)) / 2 + dot q (vecFn vout.x n))
+    (hod : od = -dot (vecFn (Vec.select b keepL.toArray) mr) (vecFn vout.z mr)
+                  - dot (vecFn vout.x n) (mulV P (vecFn vout.x n)) / 2)
+    (hrp : rp = nrm (fun k => mulV (matFn A' mr n) (vecFn vout.x n) k + vecFn vout.s mr k
+                  - vecFn (Vec.select b keepL.toArray) mr k)
+              / max 1 (normb + nrm (vecFn vout.x n) + nrm (vecFn vout.s mr)))
+    (hrd : rd = nrm (fun j => mulV P (vecFn vout.x n) j + mulVT (matFn A' mr n) (vecFn vout.z mr) j + q j)
+              / max 1 (normq + nrm (vecFn vout.x n) + nrm (vecFn vout.z mr))) :
+    let x := vecFn r.x n
+    let s := vecFn r.s m
+    let z := vecFn r.z m
+    let keep := InfoPresolve.keepFn keepL m
+    ov = dot x (mulV P x) / 2 + dot q x
+    ∧ od = -dot (vecFn b m) z - dot x (mulV P x) / 2
+    ∧ rp = InfoPresolve.nrmKept keep (fun i => mulV (matFn A m n) x i + s i - vecFn b m i)
+            / max 1 (normb + nrm x + InfoPresolve.nrmKept keep s)
+    ∧ rd = nrm (fun j => mulV P x j + mulVT (matFn A m n) z j + q j) / max 1 (normq + nrm x + nrm z)
+    ∧ ∀ i, keep i = false → s i = infbound ∧ z i = 0 :=
+  report_presolved keepL hm hmr P q A A' b hAc hAm hAn hb hsel infbound sol r vout hrev normb normq
+    ov od rp rd hov hod hrp hrd
+
+/-- **[R] `C03.almost_only_when_reduced_met`** — the `AlmostSolved` clause on the path WITHOUT
+rollback, end to end.  `j`: the info the loop leaves for the LAST iterate `v` (the `Info.update`
+result `info'` up to status changes), not yet `AlmostSolved`.  If `Info::post_process` makes it
+`AlmostSolved`, the point that is returned (`Variables.unscale v`) passes the documented
+termination test with the REDUCED tolerances on the USER's data.  (`almost_only_if`: `Almost*`
+arises nowhere else; the `Almost*Infeasible` verdicts are
+`C02.{primal,dual}_infeasible_certifies_user_problem` with `almost := true`.) -/
+theorem almost_only_when_reduced_met (dt dt' : ProblemData ℝ) (cones : List (ConeT ℝ))
+    (es : Equil.Settings ℝ) (hu : UserData dt cones es)
+    (heq : Equil.equilibrate dt cones es = .ok dt')
+    (v : Vars ℝ) (r0 r : Resid ℝ) (hsh : StateShapes dt.n dt.m v r0) (hτ : 0 < v.τ)
+    (hr : Residuals.update r0 v (toResidData dt') = .ok r)
+    (i i' : InfoS ℝ) (normq normb : ℝ)
+    (hi : Info.update i (toInfoEquil dt'.equilibration) normq normb v r = .ok i')
+    (j : InfoS ℝ) (hfig : SameFigures j i') (bz qx : ℝ) (s : Settings ℝ)
+    (h0 : j.status ≠ .almostSolved)
+    (h : (Info.postProcess j bz qx s).status = .almostSolved) :
+    let out := Unscale.unscale v (toInfoEquil dt'.equilibration) false
+    let p := problemOf dt.P dt.q dt.A dt.b dt.n dt.m
+    let x := vecFn out.x dt.n
+    let sv := vecFn out.s dt.m
+    let z := vecFn out.z dt.m
+    let pobj := dot x (mulV p.P x) / 2 + dot p.q x
+    let dobj := -dot p.b z - dot x (mulV p.P x) / 2
+    nrm (fun k => mulV p.A x k + sv k - p.b k) / max 1 (normb + nrm x + nrm sv) < s.reduced.feas
+    ∧ nrm (fun j => mulV p.P x j + mulVT p.A z j + p.q j) / max 1 (normq + nrm x + nrm z) < s.reduced.feas
+    ∧ (|pobj - dobj| < s.reduced.gap_abs
+        ∨ |pobj - dobj| / max 1 (min |pobj| |dobj|) < s.reduced.gap_rel) :=
+  almost_solved_chain dt dt' cones es hu heq v r0 r hsh hτ hr i i' normq normb hi j hfig bz qx s h0 h
+
+/-- **[R] `C03.almost_solved_after_rollback_consistent`** — the `AlmostSolved` clause on the
+insufficient-progress ROLLBACK path, decided: the verdict IS judged on the restored iterate.
+Pass `k`: `Info.update` assigns `ip'` for the iterate `vp`; the loop goes on
+(`save_prev_iterate` on an info `a` carrying the figures of `ip'`; `add_step`).  Pass `k+1`: the
+info `idisc` of the new iterate still has `prev_* =` those figures (`Info.update` does not touch
+`prev_*`), `check_termination` says `InsufficientProgress`, `reset_to_prev_iterate` restores the
+six figures and the variables `vp`, `Info::post_process` runs.  If it says `AlmostSolved`, then
+(1) the six figures of the final info — hence `obj_val`, `obj_val_dual`, `r_prim`, `r_dual` by
+`report_on_user_data` — are those of `vp`, and (2) the point that is returned, `unscale vp`,
+passes the REDUCED documented test on the USER's data.  (Contrast `C02.rollback_counterexample`:
+`ktratio`, `res_*_inf`, `dot_bz/qx` are NOT restored; `is_solved` reads none of them except
+`ktratio ≤ 1`, which is not part of the documented test.) -/
+theorem almost_solved_after_rollback_consistent (dt dt' : ProblemData ℝ) (cones : List (ConeT ℝ))
+    (es : Equil.Settings ℝ) (hu : UserData dt cones es)
+    (heq : Equil.equilibrate dt cones es = .ok dt')
+    (vp : Vars ℝ) (r0 rp : Resid ℝ) (hsh : StateShapes dt.n dt.m vp r0) (hτ : 0 < vp.τ)
+    (hr : Residuals.update r0 vp (toResidData dt') = .ok rp)
+    (i ip' : InfoS ℝ) (normq normb : ℝ)
+    (hi : Info.update i (toInfoEquil dt'.equilibration) normq normb vp rp = .ok ip')
+    (a : InfoS ℝ) (ha : SameFigures a ip')
+    (idisc : InfoS ℝ) (hprev : PrevIs idisc (savePrev a))
+    (bz qx : ℝ) (s : Settings ℝ) (iter : Nat) (tov : Bool)
+    (hip : (checkTermination idisc bz qx s iter tov).1.status = .insufficientProgress)
+    (h : (Info.postProcess (resetToPrev (checkTermination idisc bz qx s iter tov).1) bz qx s).status
+          = .almostSolved) :
+    let ifin := Info.postProcess (resetToPrev (checkTermination idisc bz qx s iter tov).1) bz qx s
+    let out := Unscale.unscale vp (toInfoEquil dt'.equilibration) false
+    let p := problemOf dt.P dt.q dt.A dt.b dt.n dt.m
+    let x := vecFn out.x dt.n
+    let sv := vecFn out.s dt.m
+    let z := vecFn out.z dt.m
+    let pobj := dot x (mulV p.P x) / 2 + dot p.q x
+    let dobj := -dot p.b z - dot x (mulV p.P x) / 2
+    SameFigures ifin ip'
+    ∧ nrm (fun k => mulV p.A x k + sv k - p.b k) / max 1 (normb + nrm x + nrm sv) < s.reduced.feas
+    ∧ nrm (fun j => mulV p.P x j + mulVT p.A z j + p.q j) / max 1 (normq + nrm x + nrm z) < s.reduced.feas
+    ∧ (|pobj - dobj| < s.reduced.gap_abs
+        ∨ |pobj - dobj| / max 1 (min |pobj| |dobj|) < s.reduced.gap_rel) :=
+  almost_solved_rollback_chain dt dt' cones es hu heq vp r0 rp hsh hτ hr i ip' normq normb hi a ha
+    idisc hprev bz qx s iter tov hip h
+
+end userdata
+
+/-! ### non-vacuity of the end-to-end theorems (instances: `Lemmas/InfoReportExample.lean`) -/
+
+/-- ALL hypotheses of `report_on_user_data` hold simultaneously (status `MaxIterations`) -/
+example : ∃ (dt dt' : ProblemData ℝ) (cones : List (ConeT ℝ)) (es : Equil.Settings ℝ) (v : Vars ℝ)
+    (r0 r : Resid ℝ) (i i' ifin : InfoS ℝ) (normq normb : ℝ) (sol : Unscale.Solution ℝ)
+    (out : Unscale.Solution ℝ × Vars ℝ),
+    UserData dt cones es ∧ Equil.equilibrate dt cones es = .ok dt'
+    ∧ StateShapes dt.n dt.m v r0 ∧ 0 < v.τ
+    ∧ Residuals.update r0 v (toResidData dt') = .ok r
+    ∧ Info.update i (toInfoEquil dt'.equilibration) normq normb v r = .ok i'
+    ∧ SameFigures ifin i' ∧ ifin.status.isInfeasible = false
+    ∧ Unscale.postProcess sol (toInfoEquil dt'.equilibration) none v ifin = .ok out :=
+  let ⟨r, i', ifin, out, h⟩ := report_example
+  ⟨zData, zData, _, zEs, zVars, zRes0, r, zInfo, i', ifin, 0, 0, _, out, h⟩
+
+/-- the hypotheses of `almost_only_when_reduced_met` hold simultaneously: the loop ran out of
+iterations on an iterate that meets the reduced test -/
+example : ∃ (r : Resid ℝ) (i' j : InfoS ℝ),
+    Residuals.update zRes0 zVars (toResidData zData) = .ok r
+    ∧ Info.update zInfo (toInfoEquil zData.equilibration) 0 0 zVars r = .ok i'
+    ∧ SameFigures j i' ∧ j.status ≠ .almostSolved
+    ∧ (Info.postProcess j 0 0 zSettings).status = .almostSolved := almost_example
+
+/-- the hypotheses of `almost_solved_after_rollback_consistent` hold simultaneously: pass `k+1`
+(`zDisc`, residuals 1000× worse) is judged `InsufficientProgress`, the rollback restores pass `k`,
+`post_process` says `AlmostSolved` -/
+example : ∃ (r : Resid ℝ) (ip' : InfoS ℝ),
+    Residuals.update zRes0 zVars (toResidData zData) = .ok r
+    ∧ Info.update zInfo (toInfoEquil zData.equilibration) 0 0 zVars r = .ok ip'
+    ∧ SameFigures ip' ip' ∧ PrevIs zDisc (savePrev ip')
+    ∧ (checkTermination zDisc 0 0 zSettings 3 false).1.status = .insufficientProgress
+    ∧ (Info.postProcess (resetToPrev (checkTermination zDisc 0 0 zSettings 3 false).1) 0 0 zSettings).status
+        = .almostSolved := rollback_example
+
+/-- `reset_then_update_not_stale`: `Info.update` succeeds after `reset` on the witness of
+`report_on_user_data` whatever the old block held (here: `Solved`, 99 iterations) -/
+example : ∃ (r : Resid ℝ) (j : InfoS ℝ),
+    Info.update (saveScalars (reset { zInfo with status := .solved, iterations := 99 }) 0)
+      (toInfoEquil zData.equilibration) 0 0 zVars r = .ok j := by
+  obtain ⟨r, hr, hres⟩ := residuals_of_equilibrate zData zData _ zEs zData_user zData_equil zVars zRes0 zShapes
+  have hrep := represents_of_equilibrate zData zData _ zEs zData_user zData_equil
+  obtain ⟨j, hj⟩ := info_update_total _ _ hrep zVars r zShapes.x zShapes.s zShapes.z hres.szrx hres.szrz
+    hres.szrxi hres.szrzi hres.szPx (saveScalars (reset { zInfo with status := .solved, iterations := 99 }) 0) 0 0
+  exact ⟨r, j, hj⟩
+
+/-- a presolve reversal on which `report_on_user_data_presolved` applies: 3 rows, the middle one
+dropped -/
+example : ∃ r, Unscale.reversePresolve { keep := [true, false, true].toArray, infbound := (99:ℚ) }
+    (Unscale.Solution.new 1 3) { x := #[5], s := #[1, 2], z := #[3, 4], τ := 1, κ := 1 } = .ok r
+    ∧ r.s = #[1, 99, 2] ∧ r.z = #[3, 0, 4] := by
+  refine ⟨_, rfl, ?_, ?_⟩ <;> rfl
+
+end Clarabel.C03
+
+/-! ## The full model, second part: whose figures the report carries; nothing stale -/
+namespace Clarabel.C03
+open Clarabel Clarabel.Solver Clarabel.InfoReport
+
+set_option linter.unusedSectionVars false
+
+section full2
+variable {α : Type} [Add α] [Sub α] [Mul α] [Div α] [Neg α] [OfNat α 0] [OfNat α 1] [OfNat α 2]
+  [OfNat α 100] [OfNat α 1000] [LT α] [DecidableLT α] [LE α] [DecidableLE α] [BEq α] [FloatLike α]
+
+/-- **[S] `C03.full_report_figures_of_returned_iterate`** (`report_matches_point` on the full
+model; valid at `Float`).  After `solve()` on the full model there is a pass record `p` of THIS
+solve's trajectory such that
+* `p.info` is what the numerics at the top of that pass — `residuals.update`, `info.update` on this
+  solver's (unchanged) internal data — assigned for the iterate `p.vars` (`RecOK`);
+* the six figures of the final `info` are those of `p.info`, and `obj_val`, `obj_val_dual`
+  (NaN for an infeasibility status), `r_prim`, `r_dual`, `status`, `iterations` of the solution are
+  copies of them;
+* the variables left in the solver (those copied / presolve-reversed into the solution) are
+  `Variables.unscale p.vars`;
+* `p` is the LAST pass's record — except after an insufficient-progress rollback, where it is the
+  last but one (the saved `prev_*` scalars and `prev_vars` are one pair).
+Scalars and vectors of the report describe one and the same iterate on every way out of the
+loop.  With `report_on_user_data` (whose hypotheses are exactly `RecOK` over `ℝ`): the documented
+expressions of the returned point on the user's data. -/
+theorem full_report_figures_of_returned_iterate {S : Solver α} {st : Solver.Settings α}
+    {r : SolveResult α} (h : S.solve st = .ok r) :
+    ∃ p, p ∈ r.traj ∧ RecOK S.st.data p
+      ∧ SameFigures r.S.st.info p.info
+      ∧ r.S.st.variables
+          = Unscale.unscale p.vars (equilView S.st.data.equilibration) r.S.st.info.status.isInfeasible
+      ∧ r.S.solution.obj_val = (if r.S.st.info.status.isInfeasible then none else some p.info.cost_primal)
+      ∧ r.S.solution.obj_val_dual = (if r.S.st.info.status.isInfeasible then none else some p.info.cost_dual)
+      ∧ r.S.solution.r_prim = some p.info.res_primal ∧ r.S.solution.r_dual = some p.info.res_dual
+      ∧ r.S.solution.status = r.S.st.info.status ∧ r.S.solution.iterations = r.S.st.info.iterations
+      ∧ (r.traj.getLast? = some p
+          ∨ ∃ pre last, r.traj = pre ++ [p, last] ∧ last.isdone = true
+              ∧ last.status = .insufficientProgress) :=
+  figures_of_returned_iterate h
+
+/-- **[S] `C03.full_final_status_is_post_process`** (the `Almost*` clause on the full model).  The
+final `info` is `Info::post_process` applied — with the REDUCED tolerances of the settings and the
+`dot_bz`, `dot_qx` of the LAST pass — to a terminal (`≠ Unsolved`) info `j` whose six figures are
+the final (= returned iterate's) ones and whose `ktratio`, `res_primal_inf`, `res_dual_inf` are the
+LAST pass's.  With `almost_only_if`: an `Almost*` status of the full model means the reduced test
+on exactly these numbers — on the rollback path the figures of the restored iterate for
+`AlmostSolved` (`almost_solved_after_rollback_consistent`), those of the discarded one for
+`Almost*Infeasible` (`C02.rollback_counterexample`, excluded for `reduced_tol_ktratio ≤ 1000` by
+`C02.rollback_never_infeasible`). -/
+theorem full_final_status_is_post_process {S : Solver α} {st : Solver.Settings α} {r : SolveResult α}
+    (h : S.solve st = .ok r) :
+    ∃ (l : PassRec α) (j : Info.InfoS α), r.traj.getLast? = some l
+      ∧ r.S.st.info = Info.postProcess j l.dotBz l.dotQx st.info
+      ∧ j.ktratio = l.info.ktratio ∧ j.res_primal_inf = l.info.res_primal_inf
+      ∧ j.res_dual_inf = l.info.res_dual_inf
+      ∧ SameFigures j r.S.st.info ∧ j.status ≠ .unsolved :=
+  final_status_is_postProcess h
+
+/-- **[S] `C03.full_report_not_stale`** (second solve on the same object).  The whole result of
+`solve()` on the full model — report, final state, trajectory, or the error — does not depend on
+what an earlier solve left in the six scalars of the solution object (`status`, `obj_val`,
+`obj_val_dual`, `iterations`, `r_prim`, `r_dual`) nor in the `info` block (the nine figures, `μ`,
+`σ`, `step_length`, `iterations`, `status`) apart from `prev_*`: `info.reset` rewrites `status`
+and `iterations`, the first pass rewrites the figures before anything reads them, and
+`solution.post_process` overwrites every scalar.  The `prev_*` fields are never read before
+`save_prev_iterate` has rewritten them in the same solve (`C04.full_no_stale_prev`;
+`full_report_figures_of_returned_iterate`: the restored figures are a record of THIS solve).
+A `reset` that forgot `status` falsifies this statement (take `i.status = Solved`). -/
+theorem full_report_not_stale (S : Solver α) (st : Solver.Settings α) (i : Info.InfoS α) (a b c : α)
+    (hp : PrevEq i S.st.info) (s0 : Info.SolverStatus) (o1 o2 r1 r2 : Option α) (k : Nat) :
+    ({ st := withInfo S.st i a b c,
+       solution := { S.solution with status := s0, obj_val := o1, obj_val_dual := o2, iterations := k,
+                                     r_prim := r1, r_dual := r2 } } : Solver α).solve st
+      = S.solve st :=
+  report_not_stale S st i a b c hp s0 o1 o2 r1 r2 k
+
+/-- `info.reset` of the full model is `Info.reset` (the model of `DefaultInfo::reset` tied to the
+code by the channel `info.reset`) -/
+theorem full_reset_is_info_reset (S : SolverSt α) :
+    resetInfo S = { S with info := Info.reset S.info } := rfl
+
+end full2
+
+/-! non-vacuity: `solve()` succeeds on the kernel-evaluated example (`Int`), also from a state whose
+`info` block and solution scalars hold leftovers -/
+section full2Examples
+open Clarabel.Solver.Example
+attribute [local instance] intFloatLike
+
+example : (run 0).toOption.map (fun r => (r.passes, r.S.solution.status, r.S.solution.iterations))
+    = some (1, .maxIterations, 0) := run0
+example (i : Info.InfoS Int) :
+    PrevEq { i with cost_primal := 7, status := .solved, iterations := 99 } i :=
+  ⟨rfl, rfl, rfl, rfl, rfl, rfl⟩
+
+end full2Examples
 
 end Clarabel.C03
